@@ -37,7 +37,7 @@ class Job:
                  bound=None, replay=False, fallback=None, config='slack', min_obl=1,
                  entry='harness', checks=None, slice_tag=None, nondet_static=False,
                  note='', assumptions=(), object_bits=None, instrument=(), weight=1,
-                 no_repo_inc=False, sliced=False, split=None, no_std_checks=False, frame_prop=None, stubs=(), special=None, variants=None, quick_props=None, all_props=None):
+                 no_repo_inc=False, sliced=False, split=None, no_std_checks=False, frame_prop=None, stubs=(), special=None, variants=None, quick_props=None, all_props=None, trace_defines=()):
         self.name = name
         self.props = list(props)
         self.engine = engine            # 'A' loop contracts, 'C' loop-free, 'B' bounded
@@ -71,6 +71,7 @@ class Job:
         self.no_repo_inc = no_repo_inc
         self.split = (engine == 'A') if split is None else split
         self.no_std_checks = no_std_checks
+        self.trace_defines = list(trace_defines)   # extra -D for the traced re-run (smaller objects: cheaper traces)
         self.all_props = all_props           # attribute every (non-canary) obligation of the job to these properties
         self.quick_props = quick_props       # properties for which the job is part of the QUICK tier (default: all of props)
         self.variants = variants             # list of dicts(label, defines, unwind, unwindset): one run each, merged
@@ -339,6 +340,9 @@ def run_job1(job, tier='quick', want_trace=False, keep=None, select=None):
             return res
         a = os.path.join(scratch, 'a.gb')
         cmd = compile_cmd(job, scratch, paths, a)
+        if want_trace and job.trace_defines:
+            i = cmd.index('--function')
+            cmd = cmd[:i] + ['-D' + d for d in job.trace_defines] + cmd[i:]
         res['cmds'].append(' '.join(cmd))
         rc, so, se, dt, st = run_tool(cmd, scratch, 300, 8)
         if rc != 0 or not os.path.exists(a):
